@@ -7,7 +7,7 @@ CONSTANTS
  Ns = {2}
  MsgVecs <- MV11
  CCoins <- AllZq
- SCoins <- AllZq
+ SCoins <- C3b
  Tamper = FALSE
  PowM <- TabPowM
 INVARIANTS Correct HonestAbort Refusal OneOnly Curious CuriousPairs
